@@ -247,6 +247,59 @@ pub fn complete_lean_two_byte_names() {
     }
 }
 
+/// ELF64 big-endian twin with TWO 64-bit bloom words: the word index is (h / 64) % 2 and the bit positions are taken modulo 64,
+/// so a lookup that selects the word or the bits with the 32-bit class's width misses present names.
+#[kani::proof]
+#[kani::unwind(6)]
+pub fn complete_lean_elf64_two_bloom_words() {
+    let shift: u32 = kani::any();
+    kani::assume(shift < 32);
+    let n0: [u8; 2] = kani::any();
+    let n1: [u8; 2] = kani::any();
+    kani::assume(n0[0] != 0 && n0[1] != 0 && n1[0] != 0 && n1[1] != 0);
+    let h0 = ref_gnu_hash(&n0);
+    let h1 = ref_gnu_hash(&n1);
+    let strs: [u8; 7] = [0, n0[0], n0[1], 0, n1[0], n1[1], 0];
+    let mut syms = [0u8; 72];
+    put_u32(&mut syms, 24, 1, false);
+    put_u32(&mut syms, 48, 4, false);
+    // nbucket=1, symoffset=1, bloom_size=2, shift | 2 bloom words | bucket[0]=1 | chain[0], chain[1]
+    let mut tab = [0u8; 48];
+    put_u32(&mut tab, 0, 1, false);
+    put_u32(&mut tab, 4, 1, false);
+    put_u32(&mut tab, 8, 2, false);
+    put_u32(&mut tab, 12, shift, false);
+    let m0: u64 = (1u64 << (h0 % 64)) | (1u64 << ((h0 >> shift) % 64));
+    let m1: u64 = (1u64 << (h1 % 64)) | (1u64 << ((h1 >> shift) % 64));
+    let i0 = (h0 / 64) % 2;
+    let i1 = (h1 / 64) % 2;
+    let w0: u64 = (if i0 == 0 { m0 } else { 0 }) | (if i1 == 0 { m1 } else { 0 });
+    let w1: u64 = (if i0 == 1 { m0 } else { 0 }) | (if i1 == 1 { m1 } else { 0 });
+    put_u64(&mut tab, 16, w0, false);
+    put_u64(&mut tab, 24, w1, false);
+    put_u32(&mut tab, 32, 1, false);
+    put_u32(&mut tab, 36, h0 & !1, false);
+    put_u32(&mut tab, 40, h1 | 1, false);
+    let e = AnyEndian::Big;
+    let symtab: SymbolTable<'_, AnyEndian> = ParsingTable::new(e, Class::ELF64, &syms);
+    let strtab = StringTable::new(&strs);
+    let t = GnuHashTable::new(e, Class::ELF64, &tab[..44]).unwrap();
+    let second: bool = kani::any();
+    let q = if second { n1 } else { n0 };
+    let same = n0[0] == n1[0] && n0[1] == n1[1];
+    let expect = if second && !same { 2 } else { 1 };
+    match t.find(&q, &symtab, &strtab) {
+        Ok(Some((idx, _))) => {
+            assert!(idx == expect);
+            kani::cover!(i0 != i1 && second, "the two names select different bloom words");
+            kani::cover!((h0 / 32) % 2 != (h0 / 64) % 2 && !second, "word index differs between the 32- and 64-bit formulas");
+        }
+        _ => {
+            assert!(false);
+        }
+    }
+}
+
 /// Lean absent-name check: same table; a two-byte name different from both present names is not found, including names
 /// that collide with a present one in hash, bucket and bloom bits.
 #[kani::proof]
